@@ -104,7 +104,6 @@ Section PoissonSpec.
   Variables pen minc mino : R.
   Hypothesis Hlen : length counts = length offset.
   Hypothesis Hoff : Forall (fun c => 0 < c) offset.
-  Hypothesis Hcnt : Forall (fun c => 0 <= c) counts.
   Hypothesis Hpen : 0 <= pen.
   Hypothesis Hminc : 0 <= minc.
   Hypothesis Hmino : 0 <= mino.
@@ -131,11 +130,6 @@ Section PoissonSpec.
     destruct (Rltb _ mino || Rltb _ minc); [reflexivity|].
     destruct (Reqb _ 0); [reflexivity|].
     f_equal.
-  Qed.
-
-  Lemma y_nonneg i j : (i <= j)%nat -> 0 <= range_sum counts i j.
-  Proof.
-    intros Hij. pose proof (psum_range counts i j Hij). pose proof (psum_mono counts Hcnt i j Hij). lra.
   Qed.
 
   Lemma f_eq_g i j : (i < j <= dim)%nat -> f i j = g i j.
@@ -177,7 +171,7 @@ Section PoissonSpec.
     exists b, poisson_changepoints RNum ln counts offset pen minc mino = Some b /\
       forall b' v', is_seg pen dim g b' v' -> exists v, is_seg pen dim g b v /\ v <= v'.
   Proof.
-    unfold poisson_changepoints.
+    unfold poisson_changepoints. change (T RNum) with R.
     rewrite Hlen, Nat.eqb_refl. simpl negb. simpl leb. simpl zero.
     assert (Rleb 0 minc = true) as -> by (now apply Rleb_true).
     assert (Rleb 0 mino = true) as -> by (now apply Rleb_true).
